@@ -330,6 +330,47 @@ def buffer_mode_pairing(prog, res):
     res.need(R, 4)
 
 
+RESOLVERS = ("ZSTD_resolveRowMatchFinderMode", "ZSTD_resolveBlockSplitterMode", "ZSTD_resolveEnableLdm")
+
+
+def resolved_against_final_cparams(prog, res):
+    """T9: the mode resolvers (row match finder, block splitter, LDM) decide from the compression parameters.  The
+    `cParams` member of a ZSTD_CCtx_params only holds the caller's explicit overrides (strategy 0 when it comes from the
+    level); the estimate functions and the context must all resolve against the FINAL parameters, or the estimate sizes a
+    different table layout than the context allocates.  A resolver may be given `&X.cParams` of a ZSTD_CCtx_params X only
+    after X.cParams was assigned in the same function (from ZSTD_getCParamsFromCCtxParams or an explicit parameter set)."""
+    R = "T9.resolved-against-final-cparams"
+    n = 0
+    for f in prog.fns_in("compress/zstd_compress.c"):
+        for b, i, c in f.calls(RESOLVERS):
+            if len(c.get("a", [])) < 2:
+                continue
+            a = strip_casts(f.resolve_x(c["a"][1]))
+            if a is None or a.get("k") != "un" or a.get("op") != "&":
+                continue
+            t = strip_casts(a["e"])
+            n += 1
+            if t.get("k") == "mem" and t.get("f") == "cParams" and t.get("rec") == "ZSTD_CCtx_params_s":
+                base = strip_casts(t["b"])
+                bn = base.get("n") if base.get("k") == "ref" else None
+
+                def assigns(x):
+                    if x.get("k") != "asg":
+                        return False
+                    l = strip_casts(x["lhs"])
+                    return l.get("k") == "mem" and l.get("f") == "cParams" and strip_casts(l["b"]).get("n") == bn
+                wr = f.find_roots(assigns)
+                ok = bn is not None and bool(wr) and f.must_pass(via_roots=wr, targets=[(b, i)])
+                res.check(ok, R, "%s:%s@%s" % (f.name, c.get("c"), c.get("l")), "%s:%s" % (f.file, c.get("l")),
+                          "%s.cParams is assigned the final parameters before it is used to resolve" % bn,
+                          "%s resolves %s against the raw cParams member of a ZSTD_CCtx_params (explicit overrides only, strategy 0 when it "
+                          "comes from the level): an estimate then sizes another table layout than the context allocates, and a static "
+                          "context of the estimated size fails with memory_allocation" % (f.name, c["c"].replace("ZSTD_resolve", "")))
+            else:
+                res.check(True, R, "%s:%s@%s" % (f.name, c.get("c"), c.get("l")), "%s:%s" % (f.file, c.get("l")), "resolved against a complete parameter set", "")
+    res.need(R, 12)
+
+
 def run(tier):
     res = Result("C14", tier)
     tus, info = extract(["compress", "decompress", "common"])
@@ -338,6 +379,7 @@ def run(tier):
     one_sizing_routine(prog, res)
     term_agreement(prog, res)
     estimate_probes(prog, res)
+    resolved_against_final_cparams(prog, res)
     buffer_mode_pairing(prog, res)
     static_never_grows(prog, res)
     bump_allocator(prog, res)
